@@ -236,4 +236,425 @@ theorem write_fits (w : Wr) (e : Env) (p : Bytes) (hfit : p.length ≤ w.availab
 example : (newWriterBuffer false 1 16).map (·.size) = some 14 := by decide
 example : ∃ w, newWriterBuffer true 2 131 = some w ∧ Inv w := ⟨_, rfl, inv_new true 2 131 _ rfl⟩
 
+/-! ### every history of writes and flushes (frame level)
+
+  `stepA` is the writer seen at the level of frames: what each operation emits (as abstract frames:
+  fin, opcode, RSV, plain payload) and how the state moves, with flushing enabled and a healthy
+  destination. `write_refines` … `flush_refines` tie the byte-level model (`Wr.write` etc. with the
+  destination, the drawn masks and the header encoder) to it; `history_ok` is the property for
+  every operation sequence. SetExtensions / ResetOp / Grow / DisableFlush / ReadFrom inside a
+  history are not part of this statement (per-operation theorems and the correspondence cover them). -/
+
+structure AF where
+  fin : Bool
+  op : Nat
+  rsv : Nat
+  plain : Bytes
+  deriving DecidableEq, Repr
+
+def opAt (op i : Nat) : Nat := if i = 0 then op else opContinuation
+
+/-- the i-th frame of a message of a writer configured with (op, ext) -/
+def frameAt (op : Nat) (ext : Option Bool) (i : Nat) (fin : Bool) (p : Bytes) : AF :=
+  ⟨fin, opAt op i, extRsv ext (opAt op i), p⟩
+
+def _root_.Ws.Wr.af (w : Wr) (fin : Bool) (p : Bytes) : AF := frameAt w.op w.ext w.fseq fin p
+
+theorem af_eq (w : Wr) (fin : Bool) (p : Bytes) :
+    w.af fin p = ⟨fin, w.opCode, extRsv w.ext w.opCode, p⟩ := by
+  unfold Wr.af frameAt opAt Wr.opCode
+  by_cases h : w.fseq = 0
+  · simp [h]
+  · have : w.fseq > 0 := Nat.pos_of_ne_zero h
+    simp [h, this]
+
+@[simp] theorem af_plain (w : Wr) (fin : Bool) (p : Bytes) : (w.af fin p).plain = p := rfl
+@[simp] theorem af_fin (w : Wr) (fin : Bool) (p : Bytes) : (w.af fin p).fin = fin := rfl
+
+inductive WOp where
+  | write (p : Bytes)
+  | writeThrough (p : Bytes)
+  | flushFrag
+  | flush
+
+/-- frame-level semantics: new state, frames emitted, bytes reported as accepted -/
+def _root_.Ws.Wr.stepA (w : Wr) : WOp → Wr × List AF × Bytes
+  | .flush =>
+    if !w.dirty && w.buf.length == 0 then (w, [], [])
+    else ({ w with buf := [], dirty := false, fseq := 0 }, [w.af true w.buf], [])
+  | .flushFrag =>
+    if w.buf.length == 0 then (w, [], [])
+    else ({ w with buf := [], fseq := w.fseq + 1 }, [w.af false w.buf], [])
+  | .writeThrough p =>
+    if w.buf.length != 0 then (w, [], [])      -- ErrNotEmpty: nothing accepted, nothing sent
+    else ({ w with dirty := true, fseq := w.fseq + 1 }, [w.af false p], p)
+  | .write p =>
+    let w0 := { w with dirty := true }
+    if p.length ≤ w0.available then ({ w0 with buf := w0.buf ++ p }, [], p)
+    else if w0.buf.length == 0 then ({ w0 with fseq := w0.fseq + 1 }, [w0.af false p], p)
+    else
+      let av := w0.available
+      let f1 := w0.af false (w0.buf ++ p.take av)
+      let w1 := { w0 with buf := [], fseq := w0.fseq + 1 }
+      let p' := p.drop av
+      if p'.length ≤ w1.available then ({ w1 with buf := p' }, [f1], p)
+      else ({ w1 with fseq := w1.fseq + 1 }, [f1, w1.af false p'], p)
+
+def runA (w : Wr) : List WOp → Wr × List AF × Bytes
+  | [] => (w, [], [])
+  | o :: os =>
+    let (w1, f1, a1) := w.stepA o
+    let (w2, f2, a2) := runA w1 os
+    (w2, f1 ++ f2, a1 ++ a2)
+
+/-- frames i, i+1, … of a message still open: none final, opcode and RSV as the position demands -/
+def openOK (op : Nat) (ext : Option Bool) : Nat → List AF → Prop
+  | _, [] => True
+  | i, f :: fs => f.fin = false ∧ f.op = opAt op i ∧ f.rsv = extRsv ext (opAt op i) ∧ openOK op ext (i + 1) fs
+
+/-- one whole message: frames 0..k-1 not final, frame k final -/
+def msgOK (op : Nat) (ext : Option Bool) (m : List AF) : Prop :=
+  ∃ pre last, m = pre ++ [last] ∧ openOK op ext 0 pre ∧ last.fin = true ∧ last.op = opAt op pre.length
+    ∧ last.rsv = extRsv ext (opAt op pre.length)
+
+theorem openOK_append (op : Nat) (ext : Option Bool) (i : Nat) (a b : List AF) :
+    openOK op ext i (a ++ b) ↔ openOK op ext i a ∧ openOK op ext (i + a.length) b := by
+  induction a generalizing i with
+  | nil => simp [openOK]
+  | cons f fs ih =>
+    simp only [List.cons_append, openOK, ih, List.length_cons]
+    have : i + 1 + fs.length = i + (fs.length + 1) := by omega
+    rw [this]
+    constructor
+    · rintro ⟨a, b, c, d, e⟩; exact ⟨⟨a, b, c, d⟩, e⟩
+    · rintro ⟨⟨a, b, c, d⟩, e⟩; exact ⟨a, b, c, d, e⟩
+
+/-- what has been sent so far: complete messages, then the frames of the message still open -/
+structure Trace (op : Nat) (ext : Option Bool) (fs : List AF) (w : Wr) : Prop where
+  split : ∃ (msgs : List (List AF)) (opn : List AF), fs = msgs.flatten ++ opn ∧ (∀ m ∈ msgs, msgOK op ext m) ∧ openOK op ext 0 opn
+            ∧ opn.length = w.fseq
+  cfg : w.op = op ∧ w.ext = ext
+
+theorem trace_emit_open (op : Nat) (ext : Option Bool) (fs : List AF) (w : Wr) (h : Trace op ext fs w) (p : Bytes) (w' : Wr)
+    (hf : w'.fseq = w.fseq + 1) (hc : w'.op = w.op ∧ w'.ext = w.ext) :
+    Trace op ext (fs ++ [w.af false p]) w' := by
+  obtain ⟨⟨msgs, opn, h1, h2, h3, h4⟩, hcfg⟩ := h
+  refine ⟨⟨msgs, opn ++ [w.af false p], by rw [h1, List.append_assoc], h2, ?_, by simp [h4, hf]⟩,
+    by rw [hc.1, hc.2]; exact hcfg⟩
+  rw [openOK_append]
+  refine ⟨h3, ?_⟩
+  simp only [openOK, Wr.af, frameAt, Nat.zero_add, h4, hcfg.1, hcfg.2, and_self]
+
+theorem trace_emit_fin (op : Nat) (ext : Option Bool) (fs : List AF) (w : Wr) (h : Trace op ext fs w) (p : Bytes) (w' : Wr)
+    (hf : w'.fseq = 0) (hc : w'.op = w.op ∧ w'.ext = w.ext) :
+    Trace op ext (fs ++ [w.af true p]) w' := by
+  obtain ⟨⟨msgs, opn, h1, h2, h3, h4⟩, hcfg⟩ := h
+  refine ⟨⟨msgs ++ [opn ++ [w.af true p]], [], ?_, ?_, trivial, by simp [hf]⟩, by rw [hc.1, hc.2]; exact hcfg⟩
+  · rw [h1]; simp
+  · intro m hm
+    rcases List.mem_append.mp hm with hm | hm
+    · exact h2 m hm
+    · simp only [List.mem_singleton] at hm
+      subst hm
+      exact ⟨opn, w.af true p, rfl, h3, rfl, by simp [Wr.af, frameAt, h4, hcfg.1], by simp [Wr.af, frameAt, h4, hcfg.1, hcfg.2]⟩
+
+theorem trace_same (op : Nat) (ext : Option Bool) (fs : List AF) (w : Wr) (h : Trace op ext fs w) (w' : Wr)
+    (hf : w'.fseq = w.fseq) (hc : w'.op = w.op ∧ w'.ext = w.ext) : Trace op ext fs w' := by
+  obtain ⟨⟨msgs, opn, h1, h2, h3, h4⟩, hcfg⟩ := h
+  exact ⟨⟨msgs, opn, h1, h2, h3, by rw [hf]; exact h4⟩, by rw [hc.1, hc.2]; exact hcfg⟩
+
+/-- one operation keeps the trace well formed and loses no byte -/
+theorem stepA_ok (op : Nat) (ext : Option Bool) (fs : List AF) (w : Wr) (o : WOp) (h : Trace op ext fs w) :
+    Trace op ext (fs ++ (w.stepA o).2.1) (w.stepA o).1
+    ∧ ((w.stepA o).2.1.flatMap (·.plain)) ++ (w.stepA o).1.buf = w.buf ++ (w.stepA o).2.2
+    ∧ (∀ f ∈ (w.stepA o).2.1, f.fin = true → o = .flush) := by
+  cases o with
+  | flush =>
+    simp only [Wr.stepA]
+    split
+    · rename_i hc
+      simp only [Bool.and_eq_true, Bool.not_eq_true', beq_iff_eq, List.length_eq_zero_iff] at hc
+      refine ⟨by rw [List.append_nil]; exact h, by simp, by simp⟩
+    · refine ⟨trace_emit_fin op ext fs w h w.buf _ rfl ⟨rfl, rfl⟩, by simp, by simp⟩
+  | flushFrag =>
+    simp only [Wr.stepA]
+    split
+    · rename_i hc
+      simp only [beq_iff_eq, List.length_eq_zero_iff] at hc
+      refine ⟨by rw [List.append_nil]; exact h, by simp, by simp⟩
+    · refine ⟨trace_emit_open op ext fs w h w.buf _ rfl ⟨rfl, rfl⟩, by simp, by simp⟩
+  | writeThrough p =>
+    simp only [Wr.stepA]
+    split
+    · refine ⟨by rw [List.append_nil]; exact h, by simp, by simp⟩
+    · rename_i hc
+      have hb : w.buf = [] := by
+        simp only [bne_iff_ne, ne_eq, List.length_eq_zero_iff, Decidable.not_not] at hc; exact hc
+      refine ⟨trace_emit_open op ext fs w h p _ rfl ⟨rfl, rfl⟩, by simp [hb], by simp⟩
+  | write p =>
+    simp only [Wr.stepA]
+    have h0 : Trace op ext fs { w with dirty := true } := trace_same op ext fs w h _ rfl ⟨rfl, rfl⟩
+    split
+    · refine ⟨by rw [List.append_nil]; exact trace_same op ext fs _ h0 _ rfl ⟨rfl, rfl⟩, by simp, by simp⟩
+    · split
+      · rename_i hc
+        have hb : w.buf = [] := by
+          simp only [beq_iff_eq, List.length_eq_zero_iff] at hc; exact hc
+        refine ⟨trace_emit_open op ext fs _ h0 p _ rfl ⟨rfl, rfl⟩, by simp [hb], by simp⟩
+      · have t1 := trace_emit_open op ext fs _ h0 (w.buf ++ p.take ({ w with dirty := true } : Wr).available)
+          ({ w with dirty := true, buf := [], fseq := w.fseq + 1 } : Wr) rfl ⟨rfl, rfl⟩
+        split
+        · refine ⟨trace_same op ext _ _ t1 _ rfl ⟨rfl, rfl⟩, by simp [List.append_assoc], by simp⟩
+        · have t2 := trace_emit_open op ext _ _ t1 (p.drop ({ w with dirty := true } : Wr).available)
+            ({ w with dirty := true, buf := [], fseq := w.fseq + 1 + 1 } : Wr) rfl ⟨rfl, rfl⟩
+          refine ⟨by rw [List.append_assoc] at t2; exact t2, by simp [List.append_assoc], by simp⟩
+
+/-- **Every history.** From a writer at a message boundary, after ANY sequence of Write /
+    WriteThrough / FlushFragment / Flush: the frames sent are whole messages followed by the
+    (non-final) frames of the message still open — first frame with the configured opcode and the
+    extension's RSV, the others continuations with RSV 0, exactly the last frame of each message
+    final; final frames come from Flush only; and the concatenated payloads followed by what is
+    still buffered are exactly the bytes reported as accepted, in order. -/
+theorem history_ok (w0 : Wr) (ops : List WOp) (hfresh : w0.fseq = 0) :
+    let r := runA w0 ops
+    Trace w0.op w0.ext r.2.1 r.1 ∧ (r.2.1.flatMap (·.plain)) ++ r.1.buf = w0.buf ++ r.2.2 := by
+  suffices H : ∀ (ops : List WOp) (w : Wr) (pre : List AF), Trace w0.op w0.ext pre w →
+      Trace w0.op w0.ext (pre ++ (runA w ops).2.1) (runA w ops).1
+      ∧ ((runA w ops).2.1.flatMap (·.plain)) ++ (runA w ops).1.buf = w.buf ++ (runA w ops).2.2 by
+    have := H ops w0 [] ⟨⟨[], [], rfl, by simp, trivial, by simp [hfresh]⟩, rfl, rfl⟩
+    simpa using this
+  intro ops
+  induction ops with
+  | nil => intro w pre h; simpa [runA] using h
+  | cons o os ih =>
+    intro w pre h
+    obtain ⟨t1, b1, _⟩ := stepA_ok w0.op w0.ext pre w o h
+    obtain ⟨t2, b2⟩ := ih (w.stepA o).1 (pre ++ (w.stepA o).2.1) t1
+    simp only [runA]
+    refine ⟨by simpa [List.append_assoc] using t2, ?_⟩
+    simp only [List.flatMap_append, List.append_assoc]
+    rw [b2, ← List.append_assoc, b1, List.append_assoc]
+
+/-! ### the byte-level writer refines the frame-level one -/
+
+/-- bytes of one abstract frame on the wire, with the key drawn for it -/
+def encAF (client : Bool) (f : AF) (m : Mask) : Bytes :=
+  rfcEncode (wireHeader client ⟨f.fin, f.rsv, f.op, false, Mask.zero, f.plain.length⟩ m) ++ wirePayload client f.plain m
+
+/-- bytes of a list of frames, drawing one key per frame on the client side -/
+def encFrames (client : Bool) : List AF → Env → Bytes
+  | [], _ => []
+  | f :: fs, e => encAF client f e.popMask.1 ++ encFrames client fs (if client then e.popMask.2 else e)
+
+theorem flushTemplate_af (w : Wr) (fin : Bool) :
+    flushTemplate w fin = ⟨(w.af fin w.buf).fin, (w.af fin w.buf).rsv, (w.af fin w.buf).op, false, Mask.zero, (w.af fin w.buf).plain.length⟩ := by
+  rw [af_eq]; rfl
+
+/-- Flush refines the frame level. -/
+theorem flush_refines (w : Wr) (e : Env) (hinv : Inv w) (he : EnvOk e) (hop : w.op < 16)
+    (hbuf : Bytes.WF w.buf) (hlen : w.buf.length < 2 ^ 63) (herr : w.err = false) :
+    ∃ e', w.flush e = some (none, (w.stepA .flush).1, e') ∧ Inv (w.stepA .flush).1 ∧ EnvOk e'
+      ∧ e'.dst.writes.flatten = e.dst.writes.flatten ++ encFrames w.client (w.stepA .flush).2.1 e := by
+  by_cases hc : (!w.dirty && w.buf.length == 0) = true
+  · have hc' := hc
+    simp only [Bool.and_eq_true, Bool.not_eq_true', beq_iff_eq, List.length_eq_zero_iff] at hc'
+    refine ⟨e, ?_, ?_, he, ?_⟩
+    · rw [empty_flush_emits_nothing w e hc'.1 hc'.2 herr]; simp [Wr.stepA, hc]
+    · simpa [Wr.stepA, hc] using hinv
+    · simp [Wr.stepA, hc, encFrames]
+  · have hd : w.dirty = true ∨ w.buf ≠ [] := by
+      simp only [Bool.and_eq_true, Bool.not_eq_true', beq_iff_eq, List.length_eq_zero_iff, not_and] at hc
+      cases hdd : w.dirty
+      · exact Or.inr (hc hdd)
+      · exact Or.inl rfl
+    obtain ⟨w', e', h1, h2, h3, h4, h5⟩ := flush_spec w e hinv he hop hbuf hlen herr hd
+    refine ⟨e', ?_, ?_, h3, ?_⟩
+    · rw [h1, h4]; simp [Wr.stepA, hc]
+    · rw [h4] at h2; simpa [Wr.stepA, hc] using h2
+    · rw [h5]; simp [Wr.stepA, hc, encFrames, encAF, flushTemplate_af]
+
+/-- FlushFragment refines the frame level. -/
+theorem flushFrag_refines (w : Wr) (e : Env) (hinv : Inv w) (he : EnvOk e) (hop : w.op < 16)
+    (hbuf : Bytes.WF w.buf) (hlen : w.buf.length < 2 ^ 63) (herr : w.err = false) :
+    ∃ e', w.flushFrag e = some (none, (w.stepA .flushFrag).1, e') ∧ Inv (w.stepA .flushFrag).1 ∧ EnvOk e'
+      ∧ e'.dst.writes.flatten = e.dst.writes.flatten ++ encFrames w.client (w.stepA .flushFrag).2.1 e
+      ∧ e'.masks = (if w.client ∧ w.buf ≠ [] then e.popMask.2.masks else e.masks) := by
+  obtain ⟨h0, h1⟩ := flushFrag_spec w e hinv he hop hbuf hlen herr
+  by_cases hb : w.buf = []
+  · refine ⟨e, ?_, ?_, he, ?_, by simp [hb]⟩
+    · rw [h0 hb]; simp [Wr.stepA, hb]
+    · simpa [Wr.stepA, hb] using hinv
+    · simp [Wr.stepA, hb, encFrames]
+  · obtain ⟨w', e', g1, g2, g3, g4, g5⟩ := h1 hb
+    have hc : (w.buf.length == 0) = false := by
+      cases hbb : w.buf with
+      | nil => exact absurd hbb hb
+      | cons x xs => simp
+    -- masks after the frame: from the flushFragment spec
+    obtain ⟨e2, f1, _, _, f4⟩ := flushFragment_spec w e false hinv he hop hbuf hlen
+    have he2 : e2 = e' := by
+      unfold Wr.flushFrag at g1
+      have hc2 : (w.buf.length == 0 || w.err) = false := by simp [hc, herr]
+      simp only [hc2, f1, Bool.false_eq_true, if_false, Option.some.injEq, Prod.mk.injEq] at g1
+      exact g1.2.2
+    refine ⟨e', ?_, ?_, g3, ?_, ?_⟩
+    · rw [g1, g4]; simp [Wr.stepA, hc]
+    · rw [g4] at g2; simpa [Wr.stepA, hc] using g2
+    · rw [g5]; simp [Wr.stepA, hc, encFrames, encAF, flushTemplate_af]
+    · rw [← he2, f4]; simp [hb]
+
+/-- WriteThrough (empty buffer) refines the frame level. -/
+theorem writeThrough_refines (w : Wr) (e : Env) (p : Bytes) (hinv : Inv w) (he : EnvOk e) (hop : w.op < 16)
+    (hp : Bytes.WF p) (hlen : p.length < 2 ^ 63) (herr : w.err = false) (hb : w.buf = []) :
+    ∃ e', w.writeThrough e p = some (p.length, none, (w.stepA (.writeThrough p)).1, e')
+      ∧ Inv (w.stepA (.writeThrough p)).1 ∧ EnvOk e'
+      ∧ e'.dst.writes.flatten = e.dst.writes.flatten ++ encFrames w.client (w.stepA (.writeThrough p)).2.1 e := by
+  obtain ⟨w', e', g1, g2, g3, g4, g5⟩ := writeThrough_spec w e p hinv he hop hp hlen herr hb
+  have hc : (w.buf.length != 0) = false := by simp [hb]
+  refine ⟨e', ?_, ?_, g3, ?_⟩
+  · rw [g1, g4]; simp [Wr.stepA, hc]
+  · rw [g4] at g2; simpa [Wr.stepA, hc] using g2
+  · rw [g5]
+    have : ({ flushTemplate w false with len := p.length } : Header)
+        = ⟨(w.af false p).fin, (w.af false p).rsv, (w.af false p).op, false, Mask.zero, (w.af false p).plain.length⟩ := by
+      rw [af_eq]; rfl
+    simp [Wr.stepA, hc, encFrames, encAF, this]
+
+theorem encFrames_masks (c : Bool) (fs : List AF) (e1 e2 : Env) (h : e1.masks = e2.masks) :
+    encFrames c fs e1 = encFrames c fs e2 := by
+  induction fs generalizing e1 e2 with
+  | nil => rfl
+  | cons f fs ih =>
+    have hp : e1.popMask.1 = e2.popMask.1 ∧ e1.popMask.2.masks = e2.popMask.2.masks := by
+      unfold Env.popMask; rw [h]; cases e2.masks <;> simp [h]
+    simp only [encFrames, hp.1]
+    congr 1
+    cases c
+    · exact ih e1 e2 h
+    · exact ih _ _ hp.2
+
+theorem inv_dirty (w : Wr) (h : Inv w) (d : Bool) : Inv { w with dirty := d } :=
+  ⟨h.off_eq, h.room, h.fits⟩
+
+/-- **Write refines the frame level** (flushing enabled, healthy destination): whatever the size of
+    `p` relative to the buffer — it is buffered, or sent through as one non-final frame, or the
+    buffer is topped up and flushed as a non-final frame and the rest buffered or sent through —
+    all of `p` is accepted, and the destination receives exactly the encodings of the frames the
+    frame-level writer emits (with the keys drawn in order). -/
+theorem write_refines (w : Wr) (e : Env) (p : Bytes) (hinv : Inv w) (he : EnvOk e) (hop : w.op < 16)
+    (hbuf : Bytes.WF w.buf) (hp : Bytes.WF p) (hlen : w.rawLen + p.length < 2 ^ 63)
+    (herr : w.err = false) (hnf : w.noFlush = false) :
+    ∃ e', w.write e p = some (p.length, none, (w.stepA (.write p)).1, e')
+      ∧ Inv (w.stepA (.write p)).1 ∧ EnvOk e'
+      ∧ e'.dst.writes.flatten = e.dst.writes.flatten ++ encFrames w.client (w.stepA (.write p)).2.1 e := by
+  obtain ⟨client, op, rawLen, off, buf, dirty, fseq, noFlush, err, ext⟩ := w
+  simp only at herr hnf hop hbuf hlen
+  subst herr hnf
+  have hfits : buf.length ≤ rawLen - off := hinv.fits
+  have hoff := hinv.off_eq
+  have hroom := hinv.room
+  simp only at hoff hroom
+  by_cases hA : p.length ≤ rawLen - off - buf.length
+  · -- it fits
+    refine ⟨e, ?_, ?_, he, ?_⟩
+    · rw [write_fits _ e p (by simpa [Wr.available, Wr.size] using hA) rfl]
+      simp [Wr.stepA, Wr.available, Wr.size, hA]
+    · simp only [Wr.stepA, Wr.available, Wr.size, hA, if_true]
+      exact ⟨hoff, hroom, by simp only [List.length_append, Wr.size]; omega⟩
+    · simp [Wr.stepA, Wr.available, Wr.size, hA, encFrames]
+  · by_cases hB : buf = []
+    · -- empty buffer: straight through
+      subst hB
+      simp only [List.length_nil, Nat.sub_zero] at hA
+      have hinv0 : Inv (⟨client, op, rawLen, off, [], true, fseq, false, false, ext⟩ : Wr) := ⟨hoff, hroom, by simp [Wr.size]⟩
+      obtain ⟨e1, g1, g2, g3, g4⟩ := writeThrough_refines ⟨client, op, rawLen, off, [], true, fseq, false, false, ext⟩ e p hinv0 he hop hp (by omega) rfl rfl
+      simp only [Wr.stepA, List.length_nil, bne_self_eq_false, Bool.false_eq_true, if_false] at g1 g2 g4
+      refine ⟨e1, ?_, ?_, g3, ?_⟩
+      · unfold Wr.write Wr.write.loop
+        have hc : decide (p.length > (⟨client, op, rawLen, off, [], true, fseq, false, false, ext⟩ : Wr).available) = true := by
+          simp [Wr.available, Wr.size]; omega
+        simp only [hc, Bool.not_false, Bool.and_self, if_true, Bool.false_eq_true, if_false, List.length_nil, beq_self_eq_true, g1, List.drop_length]
+        rw [write_loop_fits 5 _ e1 [] (0 + p.length) (by simp) rfl]
+        simp [Wr.stepA, Wr.available, Wr.size, hA]
+      · simpa [Wr.stepA, Wr.available, Wr.size, hA] using g2
+      · rw [g4]; simp [Wr.stepA, Wr.available, Wr.size, hA, Wr.af]
+    · -- top the buffer up, flush it as a fragment, then the rest
+      have hav : rawLen - off - buf.length < p.length := by omega
+      let w1 : Wr := ⟨client, op, rawLen, off, buf ++ p.take (rawLen - off - buf.length), true, fseq, false, false, ext⟩
+      have hinv1 : Inv w1 := ⟨hoff, hroom, by
+        simp only [w1, Wr.size, List.length_append, List.length_take]; omega⟩
+      have hw1wf : Bytes.WF w1.buf := by
+        intro x hx
+        simp only [w1, List.mem_append] at hx
+        rcases hx with hx | hx
+        · exact hbuf x hx
+        · exact hp x (List.mem_of_mem_take hx)
+      have hw1ne : w1.buf ≠ [] := by
+        simp only [w1]; intro h; exact hB (List.append_eq_nil_iff.mp h).1
+      obtain ⟨e1, g1, g2, g3, g4, g5⟩ := flushFrag_refines w1 e hinv1 he hop hw1wf
+        (by simp only [w1, List.length_append, List.length_take]; omega) rfl
+      have hne0 : ((buf ++ p.take (rawLen - off - buf.length)).length == 0) = false := by
+        cases hq : buf ++ p.take (rawLen - off - buf.length) with
+        | nil => exact absurd hq hw1ne
+        | cons _ _ => simp
+      simp only [Wr.stepA, w1, hne0, Bool.false_eq_true, if_false] at g1 g2 g4
+      have hne1 : (buf.length == 0) = false := by
+        cases hq : buf with
+        | nil => exact absurd hq hB
+        | cons _ _ => simp
+      have hc : decide (p.length > (⟨client, op, rawLen, off, buf, true, fseq, false, false, ext⟩ : Wr).available) = true := by
+        simp [Wr.available, Wr.size]; omega
+      let w2 : Wr := ⟨client, op, rawLen, off, [], true, fseq + 1, false, false, ext⟩
+      by_cases hC : (p.drop (rawLen - off - buf.length)).length ≤ rawLen - off
+      · -- the rest fits the (now empty) buffer
+        have hC2 : p.length ≤ rawLen - off + (rawLen - off - buf.length) := by
+          simp only [List.length_drop] at hC; omega
+        have harith : rawLen - off - buf.length + (p.length - (rawLen - off - buf.length)) = p.length := by omega
+        refine ⟨e1, ?_, ?_, g3, ?_⟩
+        · unfold Wr.write Wr.write.loop
+          simp only [hc, Bool.not_false, Bool.and_self, if_true, Bool.false_eq_true, if_false, hne1]
+          simp only [Wr.available, Wr.size, g1]
+          rw [write_loop_fits 5 _ e1 (p.drop (rawLen - off - buf.length)) (0 + (rawLen - off - buf.length))
+            (by simpa [Wr.available, Wr.size] using hC) rfl]
+          have : 0 + (rawLen - off - buf.length) + (p.drop (rawLen - off - buf.length)).length = p.length := by
+            simp only [List.length_drop]; omega
+          simp [Wr.stepA, Wr.available, Wr.size, hA, hne1, hC2, harith]
+        · simp only [Wr.stepA, Wr.available, Wr.size, hA, hne1, if_false, Bool.false_eq_true, List.length_nil, Nat.sub_zero, hC, if_true]
+          exact ⟨hoff, hroom, by simpa [Wr.size] using hC⟩
+        · rw [g4]
+          simp [Wr.stepA, Wr.available, Wr.size, hA, hne1, hC2, Wr.af]
+      · -- the rest is larger than the buffer: straight through as a second fragment
+        have hC2 : ¬ p.length ≤ rawLen - off + (rawLen - off - buf.length) := by
+          simp only [List.length_drop] at hC; omega
+        have harith : rawLen - off - buf.length + (p.length - (rawLen - off - buf.length)) = p.length := by omega
+        have hinv2 : Inv w2 := ⟨hoff, hroom, by simp [w2, Wr.size]⟩
+        obtain ⟨e2, k1, k2, k3, k4⟩ := writeThrough_refines w2 e1 (p.drop (rawLen - off - buf.length)) hinv2 g3 hop
+          (fun x hx => hp x (List.mem_of_mem_drop hx)) (by simp only [List.length_drop]; omega) rfl rfl
+        simp only [Wr.stepA, w2, List.length_nil, bne_self_eq_false, Bool.false_eq_true, if_false] at k1 k2 k4
+        have hc2 : decide ((p.drop (rawLen - off - buf.length)).length >
+            (⟨client, op, rawLen, off, [], true, fseq + 1, false, false, ext⟩ : Wr).available) = true := by
+          simp [Wr.available, Wr.size]; simp only [List.length_drop] at hC; omega
+        refine ⟨e2, ?_, ?_, k3, ?_⟩
+        · unfold Wr.write Wr.write.loop
+          simp only [hc, Bool.not_false, Bool.and_self, if_true, Bool.false_eq_true, if_false, hne1]
+          simp only [Wr.available, Wr.size, g1]
+          unfold Wr.write.loop
+          have hc3 : (List.drop (rawLen - off - buf.length) p).length > rawLen - off - 0 := by
+            simp only [List.length_drop] at hC ⊢; omega
+          simp only [Wr.available, Wr.size, Bool.not_false, Bool.and_self, if_true, Bool.false_eq_true, if_false,
+            List.length_nil, beq_self_eq_true, k1, List.drop_length, hc3, decide_true, Bool.and_true]
+          rw [write_loop_fits 4 _ e2 [] _ (by simp) rfl]
+          simp [Wr.stepA, Wr.available, Wr.size, hA, hne1, hC2, harith]
+        · simp only [Wr.stepA, Wr.available, Wr.size, hA, hne1, if_false, Bool.false_eq_true, List.length_nil, Nat.sub_zero, hC]
+          exact k2
+        · rw [k4, g4]
+          have hm : encFrames client [(⟨client, op, rawLen, off, [], true, fseq + 1, false, false, ext⟩ : Wr).af false (p.drop (rawLen - off - buf.length))] e1
+              = encFrames client [(⟨client, op, rawLen, off, [], true, fseq + 1, false, false, ext⟩ : Wr).af false (p.drop (rawLen - off - buf.length))] (if client then e.popMask.2 else e) := by
+            apply encFrames_masks
+            rw [g5]
+            cases client <;> simp [w1, hw1ne]
+          rw [hm]
+          simp [Wr.stepA, Wr.available, Wr.size, hA, hne1, hC2, encFrames, Wr.af, List.append_assoc]
+
+
 end Ws.C06
